@@ -477,6 +477,69 @@ fn positioned(r: &mut Report, rng: &mut Rng, n: u64) -> Vec<Vec<u8>> {
     out
 }
 
+/// text of the message JSON as a *fresh* decoder gives it: a new thread that has decoded nothing before
+fn fresh_text(f: &[u8]) -> Option<String> {
+    let f = f.to_vec();
+    std::thread::spawn(move || guarded(|| Message::try_from(f.as_slice()).ok().and_then(|m| serde_json::to_string(&m).ok())).ok().flatten()).join().ok().flatten()
+}
+
+/// one group of look-alike replies decoded in order on this thread; every record must show the fields that a fresh decode
+/// of its own hex gives
+fn sibling_group(r: &mut Report, group: &[Vec<u8>]) {
+    for (i, f) in group.iter().enumerate() {
+        let here = guarded(|| Message::try_from(f.as_slice()).ok().and_then(|m| serde_json::to_string(&m).ok())).ok().flatten();
+        let fresh = fresh_text(f);
+        r.evaluations += 1;
+        if here == fresh {
+            r.class("siblings:record==fresh-decode-of-its-frame");
+            if i > 0 && here.as_deref().map_or(false, |t| t.contains("\"bds05\"")) {
+                r.class("siblings:bds05-labelled-after-a-sibling");
+            }
+        } else {
+            let df = f[0] >> 3;
+            r.violation(&format!("C07:redecode-differs:after-sibling:DF{df}"), format!("record of {} decoded after {:?} reads {:?}; decoding its hex again in a fresh thread gives {:?}", hexs(f), group[..i].iter().map(|g| hexs(g)).collect::<Vec<_>>(), here, fresh), json!({"frame": hexs(f), "siblings": group[..=i].iter().map(|g| hexs(g)).collect::<Vec<_>>()}));
+        }
+    }
+}
+
+/// Comm-B replies that share their payload and differ in the header (altitude / identity / flight status), and replies that
+/// share the header and differ in the payload, decoded one after the other: what a record shows may depend on its own frame
+/// only ("decoding that hex again gives the same fields").
+fn siblings(r: &mut Report, rng: &mut Rng, n: u64) {
+    use crate::oracle::gillham;
+    const ADDR: u32 = 0x4840d6;
+    for _ in 0..n {
+        let ac = frames::ac13_from_n(rng.range(41, 2047) as u16);
+        let mb: [u8; 7] = if rng.chance(0.5) {
+            // a payload with the looks of an airborne position whose altitude is the header's
+            frames::me_airborne(*rng.pick(&[9u8, 11, 13, 18]), 0, 0, gillham::field13_to_12(ac), 0, rng.below(2) as u8, rng.biased(17) as u32, rng.biased(17) as u32)
+        } else {
+            common::commb_payload(rng, ac)
+        };
+        let other_ac = if rng.chance(0.5) { frames::ac13_from_n(rng.range(41, 2047) as u16) } else { ac ^ (1 << rng.below(6)) };
+        let mut group: Vec<Vec<u8>> = vec![
+            frames::df20(rng.below(8) as u8, 0, 0, ac, &mb, ADDR),
+            frames::df20(rng.below(8) as u8, 0, 0, other_ac, &mb, ADDR),
+        ];
+        if rng.chance(0.5) {
+            group.push(frames::df21(rng.below(8) as u8, 0, 0, (rng.next() & 0x1fbf) as u16, &mb, ADDR));
+        }
+        if rng.chance(0.5) {
+            group.push(frames::df20(0, 0, 0, ac, &common::commb_payload(rng, ac), ADDR));
+        }
+        if rng.chance(0.3) {
+            let k = rng.below(group.len() as u64) as usize;
+            group.push(group[k].clone());
+        }
+        // any order
+        for i in (1..group.len()).rev() {
+            let j = rng.below(i as u64 + 1) as usize;
+            group.swap(i, j);
+        }
+        sibling_group(r, &group);
+    }
+}
+
 /// frames of every shape (and structured random ones) as hex lines, for the engines outside this process
 pub fn generate(a: &Args) {
     use std::io::Write;
@@ -500,7 +563,7 @@ pub fn generate(a: &Args) {
 }
 
 pub fn run(a: &Args, r: &mut Report) {
-    r.rule = "shape space enumerated completely: DF 0..31 x (DF18: CF 0..7) x TC 0..31 x 3-bit subtype x (TC31: version 0..7) and DF20/21 x register hypothesis (x BDS 3,0 threat type 0..3), each shape filled N times with boundary-biased bits (N = 6 quick, 400 thorough); plus random structured frames; plus the positioned family: 2-7 position reports of one aircraft (each with an altitude of its own) (both parities, either first, mostly alternating, 0.2-3 s apart and sometimes 10-15 s or 30-170 s, airborne and surface, with and without a reference) at poles, polar caps, 87 degrees, NL transitions, the equator and mid latitudes, serialised after decode_positions has filled in the position (as jet1090 and decode1090 do) and also sent through the decode1090 executable. distinct_nontrivial = distinct ACCEPTED frames whose JSON passed every check".into();
+    r.rule = "shape space enumerated completely: DF 0..31 x (DF18: CF 0..7) x TC 0..31 x 3-bit subtype x (TC31: version 0..7) and DF20/21 x register hypothesis (x BDS 3,0 threat type 0..3), each shape filled N times with boundary-biased bits (N = 6 quick, 400 thorough); plus random structured frames; plus the positioned family: 2-7 position reports of one aircraft (each with an altitude of its own) (both parities, either first, mostly alternating, 0.2-3 s apart and sometimes 10-15 s or 30-170 s, airborne and surface, with and without a reference) at poles, polar caps, 87 degrees, NL transitions, the equator and mid latitudes, serialised after decode_positions has filled in the position (as jet1090 and decode1090 do) and also sent through the decode1090 executable; plus the sibling family: groups of 2-5 Comm-B replies that share their payload and differ in the header, or share the header and differ in the payload, decoded in order on one thread, each record compared with the decode of its own hex in a fresh thread. distinct_nontrivial = distinct ACCEPTED frames whose JSON passed every check".into();
     if let Some(p) = &a.replay {
         let v: serde_json::Value = serde_json::from_str(&std::fs::read_to_string(p).unwrap()).unwrap();
         if let Some(fs) = v["replay"]["frames"].as_array() {
@@ -508,6 +571,11 @@ pub fn run(a: &Args, r: &mut Report) {
             let stamps: Vec<f64> = v["replay"]["timestamps"].as_array().map(|t| t.iter().filter_map(|x| x.as_f64()).collect()).unwrap_or_default();
             let reference = v["replay"]["reference"].as_array().and_then(|p| Some([p.first()?.as_f64()?, p.get(1)?.as_f64()?]));
             positioned_case(r, &frames, &stamps, reference, v["replay"]["class"].as_str().unwrap_or("replay"), "replay");
+            return;
+        }
+        if let Some(g) = v["replay"]["siblings"].as_array() {
+            let group: Vec<Vec<u8>> = g.iter().filter_map(|x| hex::decode(x.as_str()?).ok()).collect();
+            sibling_group(r, &group);
             return;
         }
         check_frame(r, &hex::decode(v["replay"]["frame"].as_str().unwrap()).unwrap(), "replay");
@@ -540,6 +608,7 @@ pub fn run(a: &Args, r: &mut Report) {
             accepted_shapes += 1;
         }
     }
+    siblings(r, &mut rng, a.budget(16_000, 1_600_000));
     let pos_frames = positioned(r, &mut rng, a.budget(40_000, 4_000_000));
     if let Some(cli) = &cli {
         // histories of one aircraft, in order, one second apart: the tool pairs them and prints decoded positions
@@ -572,6 +641,8 @@ pub fn run(a: &Args, r: &mut Report) {
             mand.push("cli:record-ok".into());
             mand.push("cli:record-with-decoded-position".into());
         }
+        mand.push("siblings:record==fresh-decode-of-its-frame".into());
+        mand.push("siblings:bds05-labelled-after-a-sibling".into());
         for c in ["pole", "polar-cap(>87)", "87-degrees", "nl-transition", "equator", "mid-latitude"] {
             mand.push(format!("positioned:{c}:with-decoded-position"));
         }
